@@ -15,10 +15,14 @@ storage or dereferences a decoder result the model is explicit about it:
 * `file_service_total`          every request leaves the plugin in one of its ten states with a reply list
 * `truncated_command_no_callback` (C09) a truncated command reaches no typed callback in either slave
 * `link_reject_is_silent` (C14) a frame that fails the FT 1.2 checks causes no transmission and no delivery
+* `peer_input_cannot_touch_other_connections`  whatever the peer of one connection sends, every other connection's record is
+                                untouched (or only deactivated by STARTDT act), for every server state
+* `no_history_overfills_the_window`  in every reachable server state the k-buffer holds at most k entries
 
 NOT decided here: memory safety of the C code itself (pointer arithmetic inside the ring buffers, the HAL,
-linked list, TLS), termination of the ring traversals (no geometry invariant proved, see C06), thread
-interleavings.  Those are explored by harness/fuzz10.c and the per-stack harnesses under ASan/UBSan with a
+linked list, TLS), thread interleavings.  (Termination of the ring traversals: the geometry invariants of both rings hold
+in every reachable server state - C06 `server_event_rings_wellformed`, C13 `server_rings_wellformed` - and under them the
+walks visit exactly `entryCounter` entries, C06 `reachable_ring_is_a_list`.)  Those are explored by harness/fuzz10.c and the per-stack harnesses under ASan/UBSan with a
 HAL-call watchdog — a search, not a proof.
 -/
 import Iec.Props.C02
@@ -27,6 +31,8 @@ import Iec.Props.C14
 import Iec.Lemmas.Reasm
 import Iec.Lemmas.FileSrvSafety
 import Iec.Gen.Consts104
+import Iec.Lemmas.Srv104Isolated
+import Iec.Lemmas.Srv104Win
 namespace Iec.Props.C10
 open Iec.Asdu Iec.Layout
 
@@ -108,5 +114,30 @@ and a complete APDU (APCI + largest ASDU) fits the send buffer (translator tie, 
 theorem buffers_fit_source :
     257 < Iec.Gen.recvBufferSize ∧ Iec.Gen.apciLength + Iec.Gen.maxAsduLength ≤ Iec.Gen.sendBufferSize := by
   decide
+
+/-! ### a peer cannot corrupt another connection, and cannot push a connection outside its invariants -/
+
+/-- **isolation**: whatever the peer of connection `i` sends (any octets, any segmentation, valid or not), the reception step
+leaves the record of every other connection `j` exactly as it was - sequence numbers, k-buffer, receive buffer, timers,
+socket - or only deactivates it (STARTDT act on `i` in a shared redundancy group); the periodic tasks of `i` likewise. For
+EVERY server state. -/
+theorem peer_input_cannot_touch_other_connections (s : Iec.Srv104.Slave) (i j : Nat) (hj : j ≠ i) :
+    ((Iec.Srv104.handleTcpConnection s i).conn j = s.conn j ∨
+      (Iec.Srv104.handleTcpConnection s i).conn j = { s.conn j with state := 2 }) ∧
+    ((Iec.Srv104.periodic s i).conn j = s.conn j ∨ (Iec.Srv104.periodic s i).conn j = { s.conn j with state := 2 }) ∧
+    (Iec.Srv104.handleTcpConnection s i).conns.length = s.conns.length :=
+  ⟨(Iec.Srv104.ok1_handleTcpConnection s i).other j hj, (Iec.Srv104.ok1_periodic s i).other j hj,
+   (Iec.Srv104.ok1_handleTcpConnection s i).len⟩
+
+/-- **no history of peer input wedges the window bookkeeping**: in every reachable server state (any octets from any peers,
+in any segmentation, closes, write failures, restarts) the k-buffer of every connection in use holds at most k entries - the
+ring indices of the C code never run past each other (restated from C04 `server_never_more_than_k` for this property) -/
+theorem no_history_overfills_the_window (p : Iec.Srv104.Params) (gs : List (String × List (Bool × List Nat)))
+    (hk0 : 0 < p.k) (hk : p.k < 32767) (ops : List Iec.Srv104.WOp) (j : Nat)
+    (hu : ((ops.foldl Iec.Srv104.WOp.apply (Iec.Srv104.create p gs)).conn j).isUsed = true) :
+    ((ops.foldl Iec.Srv104.WOp.apply (Iec.Srv104.create p gs)).conn j).win.length ≤ p.k := by
+  obtain ⟨h, hp⟩ := Iec.Srv104.run_winv p gs hk0 hk ops
+  have := ((h j).2 ((h j).1 hu)).1
+  rwa [hp] at this
 
 end Iec.Props.C10
